@@ -1,8 +1,9 @@
 """C30 -- equation solving returns exactly the solution set.
 Model: coq/C30/SolveModel.v (solve_poly_linear/quadratic/cubic/quartic as expression templates over
-rational coefficients, solve_poly dispatch, solve_rational as set difference, linsolve =
-fraction-free Gauss-Jordan over Q).  Theorems: coq/C30/P_*.v (factorisation / exact solution set
-in any field of characteristic 0 with formal radicals).
+rational coefficients, solve_poly dispatch, solve_rational as set difference) and
+coq/C30/LinsolveModel.v (linsolve on the DenseMatrix model of C24: submatrix_dense +
+fraction_free_gauss_jordan_solve).  Theorems: coq/C30/P_*.v (factorisation / exact solution set
+in any field of characteristic 0 with formal radicals; linsolve = unique solution or rank-deficiency).
 Tie: (1) the model's templates are evaluated by the driver with the library's own arithmetic
 (same sequence of add/mul/pow calls as solve.cpp) and the resulting set of trees must equal the
 set solve_poly returned (one of the alternatives where the hash order of a std::set leaks);
@@ -15,8 +16,19 @@ import itertools
 import vlib
 
 # not yet in coq/_CoqProject: the .vo files are used as compiled (see the final report)
-PROOF_MODULES = []
-OBLIGATIONS = []
+PROOF_MODULES = []          # ["C30/SolveSpec.vo", "C30/LinsolveProofs.vo"] once listed in _CoqProject
+OBLIGATIONS = [
+    "C30/P_linear_sound_complete.v",
+    "C30/P_quadratic_sound_complete.v",
+    "C30/P_quadratic_multiplicity.v",
+    "C30/P_cubic_roots_sound.v",
+    "C30/P_quartic_roots_sound.v",
+    "C30/P_solve_poly_exact.v",
+    "C30/P_solve_rational_complete.v",
+    "C30/P_solve_rational_poles.v",
+    "C30/P_linsolve_unique_solution.v",
+    "C30/P_nonvacuous.v",
+]
 
 
 def fr(x):
